@@ -190,7 +190,8 @@ fn one(ctx: &mut Ctx, a: &Abs, well_formed: bool) {
     let mut c = p.clone();
     if convert_wdt(&mut c, VERS[a.ver], VERS[to]).is_ok() {
         ctx.out.oracle(c.main == p.main, "wdt-convert-loses-tiles", &format!("{desc} -> ver {to}"));
-        if to == a.ver { ctx.out.oracle(c == p, "wdt-convert-same-version-changes", &desc); }
+        // compared through `view` (floats by their bits): derived PartialEq makes a file with a NaN in a MODF entry unequal to itself
+        if to == a.ver { ctx.out.oracle(view(&c) == view(&p), "wdt-convert-same-version-changes", &desc); }
         let mut b3 = Vec::new();
         let _ = WdtWriter::new(&mut b3).write(&c);
         let back = WdtReader::new(Cursor::new(&b3), VERS[to]).read();
